@@ -91,6 +91,23 @@ def points_of(sc, binary, jbin, base, fake):
     return o, names
 
 
+def build_shim():
+    """Compiles harness/shim/failcreate.c into .cache/bin/failcreate.so (None when there is no C compiler)."""
+    import subprocess
+    src = os.path.join(vlib.VERIF, 'harness', 'shim', 'failcreate.c')
+    out = os.path.join(vlib.BIN, 'failcreate.so')
+    cc = shutil.which('gcc') or shutil.which('cc') or shutil.which('clang')
+    if cc is None:
+        return None
+    os.makedirs(vlib.BIN, exist_ok=True)
+    if not os.path.exists(out) or os.path.getmtime(out) < os.path.getmtime(src):
+        p = subprocess.run([cc, '-shared', '-fPIC', '-O1', '-o', out, src, '-ldl'], stdout=subprocess.PIPE, stderr=subprocess.STDOUT, text=True)
+        if p.returncode != 0:
+            vlib.log('shim build failed: ' + p.stdout[-300:])
+            return None
+    return out
+
+
 def check(run):
     run.trusted = list(vlib.COMMON_TRUSTED) + ['the doer fault / crash-point hooks (harness/hooks/doer/00_faults.rs): a failing write is reported after the bytes were written; a kill is an abort() of the process at a named point',
                                                'the sandbox snapshot (tools/e2e.py) as the observation of the destination']
@@ -248,6 +265,50 @@ def check(run):
                         run.fail('C08 D: just-saved source files, sync interrupted by a file-size limit, repair run exits 0 but the destination is no mirror: %s' % mm[:3], replay)
             finally:
                 shutil.rmtree(root, ignore_errors=True)
+        # ---- E: a transient failure of the CREATION of a destination file (EMFILE once, through an LD_PRELOAD shim built
+        #         from harness/shim/failcreate.c) while the following chunks are already queued ----
+        shim = build_shim()
+        if shim is None:
+            run.count('E:skipped(no C compiler)')
+        else:
+            for i in range(10 if quick else 240):
+                root = tempfile.mkdtemp(prefix='crt_', dir=base)
+                try:
+                    src = {'': {'k': 'dir'}}
+                    dest = {'': {'k': 'dir'}}
+                    for k in range(rng.randrange(1, 4)):
+                        nm = 'h%d.bin' % k
+                        src[nm] = {'k': 'file', 'len': rng.choice([9000, 30000, 100000]), 'fill': k + 5 * i, 'mtime_ns': sync_e2e.T0 + k}
+                        if rng.random() < 0.4:
+                            dest[nm] = {'k': 'file', 'data': b'old version', 'mtime_ns': sync_e2e.T0 - 10**9}
+                    e2e.build_tree(os.path.join(root, 'src'), src)
+                    e2e.build_tree(os.path.join(root, 'dest'), dest)
+                    before = e2e.snapshot(os.path.join(root, 'dest'))
+                    args = [os.path.join(root, 'src'), os.path.join(root, 'dest'), '--dest-file-newer', 'overwrite', '--dest-file-older', 'overwrite']
+                    nth = rng.randrange(0, len(src) - 1)
+                    env = {'LD_PRELOAD': shim, 'VERIF_SHIM_PREFIX': os.path.join(root, 'dest'), 'VERIF_SHIM_FAIL_NTH': str(nth), 'VERIF_SHIM_STALL_US': '300000'}
+                    r1 = e2e.run_cli(binary, args, env=env, timeout=60)
+                    srcs, mid = e2e.snapshot(os.path.join(root, 'src')), e2e.snapshot(os.path.join(root, 'dest'))
+                    run.count('E:first-exit:%s' % r1['exit'])
+                    run.case(('E', i, nth), r1['exit'] != 0, sample={'fail_nth_create': nth, 'first_exit': r1['exit']} if i < 3 else None)
+                    replay = {'family': 'E', 'files': {k: v.get('len') for k, v in src.items()}, 'dest_had': sorted(dest), 'fail_nth_create': nth,
+                              'first_text': (r1['stdout'] + r1['stderr'])[-500:]}
+                    bad = damage(srcs, before, mid)
+                    if bad:
+                        run.fail('C08 E: the creation of a destination file failed once (EMFILE) and %s now carries the source\'s time but not its bytes' % bad[:3], replay)
+                        continue
+                    if r1['exit'] == 0 and mirror_diff(srcs, before, mid, jbin):
+                        run.fail('C08 E: a file creation failed (EMFILE), the run exited 0 and the destination is no mirror', replay)
+                        continue
+                    r2 = e2e.run_cli(binary, args, env={}, timeout=60)
+                    if r2['exit'] != 0:
+                        run.fail('C08 E: the repair run failed (exit %s)' % r2['exit'], dict(replay, second_text=(r2['stdout'] + r2['stderr'])[-500:]))
+                    else:
+                        mm = mirror_diff(srcs, before, e2e.snapshot(os.path.join(root, 'dest')), jbin)
+                        if mm:
+                            run.fail('C08 E: after the repair run the destination is no mirror: %s' % mm[:3], replay)
+                finally:
+                    shutil.rmtree(root, ignore_errors=True)
     finally:
         shutil.rmtree(base, ignore_errors=True)
     return run.finish(search=None)
